@@ -1,10 +1,14 @@
 #!/bin/bash
-# usage: seed_run.sh <seed-id> <prop> [<prop>...] — apply the seeded change to /repo, run the quick checks, undo it
+# usage: seed_run.sh <seed-id> <prop> [<prop>...] — apply the seeded change to /repo, run the quick checks, undo it.
+# The evidence files are saved before and restored afterwards: evidence must describe the UNCHANGED tree only.
 ID=$1; shift
 cd /verif
 git -C /repo apply /verif/seeded/$ID/patch.diff || exit 2
 for P in "$@"; do
+  cp /verif/evidence/$P.json /tmp/.evidence_$P.json.bak 2>/dev/null
   ./check $P --tier quick > /verif/seeded/$ID/check_$P.log 2>&1; echo "$ID $P exit=$? $(grep -c '^VIOLATION' /verif/seeded/$ID/check_$P.log) violation lines"
   grep -A1 '^VIOLATION' /verif/seeded/$ID/check_$P.log | head -4 | cut -c1-300
+  [ -f /tmp/.evidence_$P.json.bak ] && mv /tmp/.evidence_$P.json.bak /verif/evidence/$P.json
 done
 git -C /repo checkout -- .
+python3 /verif/translator/gen.py > /dev/null 2>&1   # bring lean/Gen back to the unchanged tree
